@@ -120,6 +120,13 @@ type recSource struct {
 // forward returns a channel that is closed when ch is closed or the run stops.
 func (s *recSource) forward(ch <-chan struct{}) <-chan struct{} {
 	out := make(chan struct{})
+	select {
+	case <-ch:
+		// already closed: the caller's non-blocking select must see that at once
+		close(out)
+		return out
+	default:
+	}
 	go func() {
 		select {
 		case <-ch:
